@@ -1,5 +1,5 @@
 /-
-  AL.Impl.Parser — src/parser.c: check_len_or_resize, assemble, assemble_counting_chunks,
+  AL.Impl.Parser — src/parser.c: check_len_or_resize, assemble_within_reserve, assemble, assemble_counting_chunks,
   assemble_with_chunk_fitting, assemble_all; nop_padding (src/assembler.c).
 
   The functions are generic in the per-line function `lf : Str → R LineOut × Nat`
@@ -79,7 +79,9 @@ def emitOne (r : Run) (bs : Bytes) : Run × Option Err :=
   | .assemble =>
     match checkLenOrResize r.a r.bufPos with
     | .error e => (r, some e)
-    | .ok a => ({ r with a := writeAt a r.bufPos bs, bufPos := (r.bufPos + bs.length) % 2 ^ 32 }, none)
+    | .ok a =>
+      if bs.length > c_BUFFER_TOLERANCE then (r, some .fail) else
+      ({ r with a := writeAt a r.bufPos bs, bufPos := (r.bufPos + bs.length) % 2 ^ 32 }, none)
   | .count =>
     match r.brks with
     | none => (r, some .fail)
@@ -89,6 +91,7 @@ def emitOne (r : Run) (bs : Bytes) : Run × Option Err :=
       | .ok a =>
         if a.chunkSize == 0 then (r, some (.ub "chunk counting: modulo by zero")) else
         let free := (a.chunkSize - r.bufPos % a.chunkSize) % 2 ^ 32
+        if bs.length > c_BUFFER_TOLERANCE then (r, some .fail) else
         ({ a := writeAt a r.bufPos bs
            bufPos := (r.bufPos + bs.length) % 2 ^ 32
            brks := some (if bs.length > free then n + 1 else n) }, none)
@@ -98,6 +101,7 @@ def emitOne (r : Run) (bs : Bytes) : Run × Option Err :=
     | .ok a =>
       if a.chunkSize == 0 then (r, some (.ub "chunk fitting: modulo by zero")) else
       let free := a.chunkSize - r.bufPos % a.chunkSize
+      if bs.length > c_BUFFER_TOLERANCE then (r, some .fail) else
       let a := writeAt a r.bufPos bs
       if bs.length ≤ free || bs.length ≥ a.chunkSize then
         ({ r with a := a, bufPos := (r.bufPos + bs.length) % 2 ^ 32 }, none)
@@ -109,6 +113,7 @@ def emitOne (r : Run) (bs : Bytes) : Run × Option Err :=
         | .error e => ({ r with a := a, bufPos := bufPos }, some e)
         | .ok a =>
           let free2 := a.chunkSize - bufPos % a.chunkSize
+          -- (the length test of assemble_within_reserve cannot fail here: it passed above)
           let a := writeAt a bufPos bs
           if bs.length ≤ free2 || bs.length ≥ a.chunkSize then
             ({ r with a := a, bufPos := (bufPos + bs.length) % 2 ^ 32 }, none)
